@@ -477,6 +477,14 @@ class UserMonitor:
             if mode == 0x10:
                 b.violate('user.confinement', opn, 'exception_stays_in_user', 'entry %s dispatched but mode is still User' % taken)
                 return
+            w_, thumb_ = b.case['cores'][0]['words'][b.pos[0] - 1], (pre_cpsr >> 5) & 1           # the word placed for this tick
+            is_smc = ((w_ & 0xFFF0F000) == 0xF7F08000) if thumb_ else ((w_ & 0x0FF000F0) == 0x01600070 and (w_ >> 28) != 0xF)
+            if is_smc and rec['what'] == 'step' and any(k in ('smc', 'hyptrap') for k in taken) and not rec['nie']:
+                # SMC is UNDEFINED in User mode: neither the Secure Monitor nor a hypervisor trap (HCR.TSC applies to PL1 only) is the
+                # architectural exception for it
+                b.violate('user.confinement', opn, 'wrong_exception_for_user_smc', 'User-mode SMC (opcode %#x, cpsr %#x, scr %#x, hcr %#x) dispatched %s instead of Undefined Instruction' % (
+                    w_, pre_cpsr, r.scr.value, r.hcr.value, taken))
+                return
             sp = r.get_spsr()
             if sp & 0x1F != 0x10:
                 b.violate('user.confinement', opn, 'spsr_not_user', 'after %s entry SPSR.M = %#x (CPSR before %#x)' % (taken[0], sp & 0x1F, pre_cpsr))
